@@ -60,15 +60,12 @@ func DecodeTrafSR(hdr BoxHeader, startPos uint64, sr bits.SliceReader) (Box, err
 // ContainsSencBox - is there a senc box in traf and is it parsed
 // If not parsed, call ParseReadSenc to parse it
 func (t *TrafBox) ContainsSencBox() (ok, parsed bool) {
-	for _, c := range t.Children {
-		switch box := c.(type) {
-		case *SencBox:
-			return true, !box.readButNotParsed
-		case *UUIDBox: // PIFF
-			if box.SubType() == "senc" {
-				return true, !box.Senc.readButNotParsed
-			}
-		}
+	// Report on the box that ParseReadSenc will parse (a traf may hold more than one senc box)
+	if t.Senc != nil {
+		return true, !t.Senc.readButNotParsed
+	}
+	if t.UUIDSenc != nil && t.UUIDSenc.Senc != nil { // PIFF
+		return true, !t.UUIDSenc.Senc.readButNotParsed
 	}
 	return false, false
 }
